@@ -6,6 +6,7 @@ import (
 	"fmt"
 	"math"
 	"math/bits"
+	mrand "math/rand"
 	"os"
 	"reflect"
 	"sync"
@@ -569,6 +570,23 @@ func c18Run(t *testing.T, sc Scenario, res *Result) {
 			res.inc("fresh_pairs_with_stale_fail_file")
 			if fmt.Sprint(st[0]) == fmt.Sprint(st[1]) {
 				res.violate(sc, "c18/not-fresh-stale-file", "with an ignorable fail file ("+kind+") present, two Check calls without -rapid.seed generated the same sequence of test cases", map[string]any{"first_cases": clipList(st[0], 2)})
+			}
+		}
+		// the test binary seeds the global math/rand source itself (rand.Seed(k) in TestMain or at the top of a test, so
+		// that ITS random choices repeat): rapid's sequences are fresh all the same
+		{
+			var st [2][]string
+			for k := 0; k < 2; k++ {
+				mrand.Seed(42)
+				setFlags(map[string]string{"rapid.checks": "20", "rapid.nofailfile": "true"})
+				tb := newTB("C18mrand")
+				k := k
+				runCheck(tb, func(t *rapid.T) { st[k] = append(st[k], fmt.Sprint(permGen.Draw(t, "p"))) })
+			}
+			noDup(st[0], "run after rand.Seed(42)")
+			res.inc("fresh_pairs_after_math_rand_seed")
+			if fmt.Sprint(st[0]) == fmt.Sprint(st[1]) {
+				res.violate(sc, "c18/not-fresh-math-rand", "after rand.Seed(42) (the test's own use of math/rand) two Check calls without -rapid.seed generated the same sequence of test cases", map[string]any{"first_cases": clipList(st[0], 2)})
 			}
 		}
 		// one stored MakeCheck function invoked several times (table-driven sub-tests): every invocation is a fresh run
